@@ -129,6 +129,7 @@ class Checker(CommandMixin):
         for k in post_m - pre_m:
             self._new_mb(k, ev)["act"] = ev.wall
             self.mb_inc[k]["any"] = ev.wall
+            self.mb_inc[k]["act_t"] = ev.t
         pre_n = {(n.app, n.name): n.mailbox for n in pre.nameplates}
         post_n = {(n.app, n.name): n.mailbox for n in post.nameplates}
         for k in list(pre_n):
@@ -210,6 +211,7 @@ class Checker(CommandMixin):
             return
         n0 = len(self.viol)
         kind = ev.kind
+        self.cur_t = ev.t
         self._universal(ev)
         if ev.post is not None:
             self.shapes.add(ev.post.shape())
@@ -413,7 +415,10 @@ class Checker(CommandMixin):
                 if subscribed:
                     self.v("C12", "subscribed-mailbox-survives", ev,
                            "sweep deleted mailbox %r while connections %r are subscribed" % (k, self.subs.get(k)))
-                elif act is not None and act > now - EXPIRY + EPS:
+                elif (act is not None and act > now - EXPIRY + EPS and act <= now + EPS
+                      and (rec.get("act_t") is None or ev.t - rec["act_t"] < EXPIRY - EPS)):
+                    # (recent on the wall clock the server stamps with *and* in elapsed time:
+                    # a wall-clock jump must not turn a legitimate expiry into an alarm)
                     self.v("C12", "active-mailbox-survives", ev,
                            "sweep at %.3f deleted mailbox %r whose last activity was at %.3f (%.3f s earlier)"
                            % (now, k, act, now - act))
